@@ -4,14 +4,14 @@ from .. import asynccheck as ac
 ALL_KINDS = ["buffer", "delay", "rate_limit", "map_async", "timed_window", "timed_window_unique", "partition_timeout", "latest"]
 
 
-def sweep(ctx, n, kinds, oracles, signatures, corpus=(), opts=None, allow_zip=True):
+def sweep(ctx, n, kinds, oracles, signatures, corpus=(), opts=None, allow_zip=True, p_zip=0.15):
     import copy
     for c in corpus:
         c = copy.deepcopy(c)
         ac.evaluate(ctx, c, ac.rerun(c), oracles, signatures)
     rng = ctx.rng
     for i in range(n):
-        nodes = ac.gen_pipeline(rng, kinds, allow_zip=allow_zip)
+        nodes = ac.gen_pipeline(rng, kinds, allow_zip=allow_zip, p_zip=p_zip)
         flavour = ("future", "coro", "tornado")[i % 3]
         o = dict(opts or {})
         o.setdefault("awaiting", rng.random() < 0.5)
